@@ -9,6 +9,7 @@ import Proofs.Lemmas.Store
 import Proofs.Lemmas.StoreJson
 import Proofs.Lemmas.StoreRedis
 import Proofs.Lemmas.StoreSteps
+import Proofs.Lemmas.StoreTtl
 namespace Asl.C20
 open Asl Asl.Store
 
@@ -176,6 +177,22 @@ theorem ttl_kept_by_nested_update (q : Quirks) (cfgs : Nat → Cfg) (w : RWorld)
     · rfl
     · split <;> rfl
 
+/-- the engine's write pattern for an execution record (and, from its first event on, its history): the
+whole record is written, `set_ttl` gives it the configured time-to-live `n`, and from then on the record
+is only grown and read (member updates, appends, plain / cached reads, membership tests — `isGrow`) by
+any clients in any order: at the end the record still carries exactly `n`.  (Without the `set_ttl`
+step it carries none: `whole_key_set_drops_ttl`.) -/
+theorem engine_written_record_keeps_ttl (q : Quirks) (cfgs : Nat → Cfg) (w : RWorld) (c : Nat) (k : Str)
+    (v : Json) (n : Nat) (rest : List (Nat × Op))
+    (hv : okVal (cfgs c).isList v = true) (hne : isEmptyVal v = false) (hn : n ≠ 0)
+    (hrest : ∀ e ∈ rest, isGrow e.2 = true) :
+    aGet (rrun q cfgs w ((c, .set k v) :: (c, .ttl k n) :: rest)).1.ttl (pk (cfgs c).pre k) = some n := by
+  simp only [rrun]
+  rw [grow_run_keeps_ttl q cfgs _ rest hrest]
+  have hp : (rabs (rstep q cfgs w c (.set k v)).1 (cfgs c).pre k).isSome = true := by
+    simp [rabs, set_makes_present q cfgs w c k v hv hne]
+  exact (ttl_applied q cfgs _ c k n hp hn).1
+
 /-- (the model copies the code here, the property is silent) replacing a whole record is DEL + HSET /
 RPUSH, so the record comes back without a TTL: the engine must call `set_ttl` again. -/
 theorem whole_key_set_drops_ttl (cfgs : Nat → Cfg) (w : RWorld) (c : Nat) (k : Str) (v : Json)
@@ -224,6 +241,16 @@ example : ((rstep Quirks.none cfg2 wStale 1 .deliver).1.cl 1).pending = [] ∧
 -- ttl_applied / whole_key_set_drops_ttl: a stored record, a positive TTL, a dict value
 example : (rabs w0 (cfg2 0).pre (s "k1")).isSome = true ∧ (86400 : Nat) ≠ 0 ∧
     okVal (cfg2 0).isList (.obj [(s "x", .num 5)]) = true := ⟨by rfl, by decide, rfl⟩
+
+-- engine_written_record_keeps_ttl: a record, the configured TTL, then a status update, a cached read by another
+-- client and a membership test (all `isGrow`); the TTL is still there, and without the set_ttl step there is none
+example : okVal (cfg2 0).isList (.obj [(s "status", .str (s "RUNNING"))]) = true ∧
+    isEmptyVal (.obj [(s "status", .str (s "RUNNING"))]) = false ∧
+    (∀ e ∈ [((0 : Nat), Op.upd (s "e1") (s "status") (.str (s "SUCCEEDED"))), (1, .cget (s "e1")), (1, .has (s "e1"))],
+      isGrow e.2 = true) ∧
+    aGet (rrun Quirks.none cfg2 w0 [(0, .set (s "e1") (.obj [(s "status", .str (s "RUNNING"))])),
+      (0, .upd (s "e1") (s "status") (.str (s "SUCCEEDED")))]).1.ttl (pk (cfg2 0).pre (s "e1")) = none :=
+  ⟨rfl, rfl, by decide, by rfl⟩
 
 /-! ### the recorded deviations break the property in the model (witnesses replayed on the code) -/
 
